@@ -54,6 +54,10 @@ isal_self_tests(void)
 
         ret |= _sha_self_tests();
 
+        /* The status word has one "passed" (0) and one "failed" (1) value; the SHA tests report failure as -1,
+         * which would be stored as a "not done" pattern and make the next caller run the tests again. */
+        ret = (ret != 0);
+
         asm_set_self_tests_status(ret);
 
         if (ret == 0)
